@@ -118,7 +118,7 @@ func main() {
 		},
 		Budget: func(run *core.Run) time.Duration {
 			if run.Quick() {
-				return 70 * time.Second
+				return 180 * time.Second
 			}
 			return 12 * time.Minute
 		},
